@@ -6,7 +6,7 @@
 set -u
 src="$1"; id="$2"; prop="$3"; where="${4:-miniz_oxide}"
 wt=/tmp/confirm-$id
-dst=/verif/seeded/$id
+dst=${DSTROOT:-/verif/seeded}/$id
 rm -rf "$wt"; git -C /repo worktree prune
 git -C /repo worktree add --detach "$wt" HEAD -q || exit 2
 cleanup() { git -C /repo worktree remove --force "$wt" 2>/dev/null; rm -rf "$wt"; }
@@ -38,7 +38,9 @@ if [ $ok = 1 ]; then
   python3 - "$dst" "$id" "$prop" "$suite" "$with" "$without" "$tdir/$name.rs" "$pkg" <<'PY'
 import json,sys
 dst,id,prop,suite,w,wo,path,pkg=sys.argv[1:9]
-meta={"id":id,"breaks_property":prop,"origin":"independent sub-agent given only the property text and a scratch worktree",
+import os
+benign=os.environ.get("BENIGN")=="1"
+meta={"id":id,("area" if benign else "breaks_property"):prop,"origin":("independent sub-agent given the 20 property statements and a scratch worktree; asked for a behaviour-changing change under which every property still holds (the demo pins the OLD behaviour: it proves the change is observable, not that a property is violated)" if benign else "independent sub-agent given only the property text and a scratch worktree"),
  "confirmed":{"existing_suite_with_patch":suite,"demo_with_patch":w,"demo_without_patch":wo,
   "demo_path_in_repo":path,"demo_cmd":"cargo test -p %s --test %s --offline"%(pkg,path.split('/')[-1][:-3]),
   "confirmed_in":"scratch worktree of /repo HEAD (with the fix: commit) under /tmp, removed afterwards"},
